@@ -46,6 +46,12 @@ impl Sc {
 /// bit pattern (zero-extended to u64) of a named token in a scalar type
 pub fn tok_bits(sc: Sc, tok: &str) -> u64 {
     let m = sc.mask();
+    // "~t": the twin of token t -- a value that COMPARES equal to t but has other bits where the type has such values (the other zero
+    // of a float); t itself otherwise
+    if let Some(t) = tok.strip_prefix('~') {
+        let b = tok_bits(sc, t);
+        return if sc.is_float() && (b & (m >> 1)) == 0 { b ^ ((m >> 1) + 1) } else { b };
+    }
     if let Some(n) = tok.strip_prefix('t').and_then(|x| x.parse::<u64>().ok()) {
         // numbered tokens: pairwise distinct; for floats every third one is a NaN with its own payload
         return match sc {
